@@ -12,7 +12,7 @@ From Gen Require Import M_base M_Angle.
 From Proofs.C03 Require Import C03_defs C03_reduce C03_construct C03_forms C03_dms C03_ops.
 From Proofs.C03 Require C03_grid.
 From PyLib Require B64 B64Verified.
-From Proofs.C03 Require C03_reduce_b64.
+From Proofs.C03 Require C03_reduce_b64 C03_b64.
 Import ListNotations.
 Open Scope R_scope.
 
@@ -221,6 +221,34 @@ Proof.
   exists r. repeat split; assumption.
 Qed.
 
+(* binary64 instance, EVERY finite float x: the constructor Angle(x) stores reduce_deg(x), whose real
+   value is exactly red360 (value of x): strictly inside (-360, 360), sign of x (tol64 = 1e-10) *)
+Theorem C03_construct_b64 : forall x : PrimFloat.float, B64Verified.fin x ->
+  exists r, Angle___init__ B64.B0 (VObj cAngle [VNone; VNone]) (VTuple [VFloat x]) (VDict [])
+              = C03_b64.angb r C03_b64.tol64 /\
+            B64Verified.fin r /\ B64Verified.RV r = red360 (B64Verified.RV x) /\
+            Rabs (B64Verified.RV r) < 360 /\
+            (0 <= B64Verified.RV x -> 0 <= B64Verified.RV r) /\
+            (B64Verified.RV x <= 0 -> B64Verified.RV r <= 0).
+Proof. exact C03_b64.construct_b64. Qed.
+
+(* binary64 instance, EVERY finite stored value d in (-360, 360): to_positive returns the angle holding r
+   with 0 <= r < 360; d >= 0 is kept; for d < 0, r is the correctly rounded 360 + d, except that a
+   rounding up to 360.0 (only for -2^-45 <= d < 0, e.g. -1e-20) is clamped to 0.0; so r is congruent to
+   d modulo 360 up to half an ulp of 360 (2^-45 = 2.8e-14 degree) *)
+Theorem C03_to_positive_b64 : forall d t0 : PrimFloat.float, B64Verified.fin d ->
+  -360 < B64Verified.RV d < 360 ->
+  exists r, Angle_to_positive B64.B0 (C03_b64.angb d t0) = VTuple [C03_b64.angb r t0; C03_b64.angb r t0] /\
+            B64Verified.fin r /\ 0 <= B64Verified.RV r < 360 /\
+            (0 <= B64Verified.RV d -> r = d) /\
+            (B64Verified.RV d < 0 ->
+               ((B64Verified.RV r = B64Verified.RN (360 + B64Verified.RV d) /\ B64Verified.RN (360 + B64Verified.RV d) < 360) \/
+                (B64Verified.RV r = 0 /\ B64Verified.RN (360 + B64Verified.RV d) = 360 /\
+                 - Raux.bpow Zaux.radix2 (-45) <= B64Verified.RV d)) /\
+               (Rabs (B64Verified.RV r - (B64Verified.RV d + 360)) <= Raux.bpow Zaux.radix2 (-45) \/
+                Rabs (B64Verified.RV r - B64Verified.RV d) <= Raux.bpow Zaux.radix2 (-45))).
+Proof. exact C03_b64.to_positive_b64. Qed.
+
 Redirect "C03_reduce_deg_ideal.assumptions" Print Assumptions C03_reduce_deg_ideal.
 Redirect "C03_reduction_spec.assumptions" Print Assumptions C03_reduction_spec.
 Redirect "C03_construct_ideal.assumptions" Print Assumptions C03_construct_ideal.
@@ -231,3 +259,5 @@ Redirect "C03_unary_compare_ideal.assumptions" Print Assumptions C03_unary_compa
 Redirect "C03_views_ideal.assumptions" Print Assumptions C03_views_ideal.
 Redirect "C03_grid_b64.assumptions" Print Assumptions C03_grid_b64.
 Redirect "C03_reduce_deg_b64.assumptions" Print Assumptions C03_reduce_deg_b64.
+Redirect "C03_construct_b64.assumptions" Print Assumptions C03_construct_b64.
+Redirect "C03_to_positive_b64.assumptions" Print Assumptions C03_to_positive_b64.
